@@ -21,7 +21,7 @@ for pid in sys.argv[1:]:
         missed = [p for p, v in e.get("checks", {}).items() if v["rc"] == 0]
         meta = {
             "id": f"{pid}_{k}",
-            "breaks_property": pid.rstrip("bc"),
+            "breaks_property": pid.rstrip("bcd"),
             "origin": "written by an independent sub-agent that saw only the property text and its own scratch worktree",
             "needs_to_manifest": notes.strip().split("\n\n")[0][:1500],
             "confirmed": {
